@@ -99,9 +99,10 @@ class CompletionSem(Sem):
     """state: frozenset of completion counts (capped at 2) of the result future on the paths reaching here"""
     base_exc_escapes = False
 
-    def __init__(self, fut):
+    def __init__(self, fut, safe_ctors=()):
         self.fut = fut
         self.kinds = []
+        self.safe_ctors = set(safe_ctors)      # see value_ctors(): classes whose construction from a constant cannot fail
 
     def join2(self, a, b):
         return a | b
@@ -110,7 +111,9 @@ class CompletionSem(Sem):
         # logging / traceback calls and the completion itself are treated as non-raising
         cs = calls_in(st)
         return bool(cs) and all((dotted(c.func) or "").startswith(NONRAISING_CALL_PREFIXES) or self._completion(c) or
-                                callee_name(c) in ("type", "str", "KlongException") for c in cs)
+                                callee_name(c) in ("type", "str", "KlongException") or
+                                (isinstance(c.func, ast.Name) and c.func.id in self.safe_ctors and not c.keywords and all(isinstance(a, ast.Constant) for a in c.args))
+                                for c in cs)
 
     def _completion(self, c):
         f = c.func
@@ -132,6 +135,18 @@ class CompletionSem(Sem):
         if n:
             state = frozenset(min(2, x + n) for x in state)
         return state
+
+
+def value_ctors(repo):
+    """names of repository classes that are a builtin str/int/float with nothing added to construction (no __init__/__new__):
+    calling one with a constant argument cannot raise"""
+    out = set()
+    for m in repo.modules.values():
+        for name, c in m.classes.items():
+            if c.bases and all(isinstance(b, ast.Name) and b.id in ("str", "int", "float") for b in c.bases) and \
+                    not any(isinstance(x, FUNC) and x.name in ("__init__", "__new__") for x in c.body):
+                out.add(name)
+    return out
 
 
 def resolve_single_assign(expr, fnode, depth=4):
